@@ -164,13 +164,31 @@ func runC16B(args []string) error {
 	rng := rand.New(rand.NewSource(c.seed*31337 + 5))
 	thorough := c.tier == "thorough"
 	ss := []int{4, 8, 12, 16, 20, 64, 100, 2000}
+	// every slice size that is a multiple of 4 up to 320 (and a seeded few above), with a light load each
+	light := map[int]bool{}
+	for s := 24; s <= 320; s += 4 {
+		if s != 64 && s != 100 {
+			ss = append(ss, s)
+			light[s] = true
+		}
+	}
+	for k := 0; k < 4; k++ {
+		s := 4 * (81 + rng.Intn(400))
+		ss = append(ss, s)
+		light[s] = true
+	}
 	idx := 0
 	for _, s := range ss {
 		residues := []int{}
 		for r := 0; r < s; r++ {
 			residues = append(residues, r)
 		}
-		if len(residues) > 12 && !thorough {
+		if light[s] {
+			residues = []int{rng.Intn(s), 0}
+			if thorough {
+				residues = append(residues, s-1, rng.Intn(s))
+			}
+		} else if len(residues) > 12 && !thorough {
 			rng.Shuffle(len(residues), func(i, j int) { residues[i], residues[j] = residues[j], residues[i] })
 			residues = append(residues[:10], 0, s-1)
 		} else if len(residues) > 64 {
@@ -187,7 +205,9 @@ func runC16B(args []string) error {
 			prot := map[string][]byte{"main.bin": orig, "other.bin": other}
 			// edit positions: all for small s, sampled otherwise
 			var positions []int
-			if n <= 80 || thorough && n <= 400 {
+			if light[s] {
+				positions = []int{0, s + 1, 2*s - 1, n - 1, rng.Intn(n + 1)}
+			} else if n <= 80 || thorough && n <= 400 {
 				for p := 0; p <= n; p++ {
 					positions = append(positions, p)
 				}
